@@ -130,6 +130,16 @@ pub(super) fn verify_nsec3(
             return nsec3_yield(Proof::Bogus, query, "record name is not in the zone");
         }
 
+        // Without a SOA record the zone is not named by the response; the NSEC3 records can
+        // then only speak for the query name if they come from a zone that encloses it.
+        if soa.is_none() && !base.zone_of(&query.name) {
+            return nsec3_yield(
+                Proof::Bogus,
+                query,
+                "record name is not in a zone enclosing the query name",
+            );
+        }
+
         let Ok(base32_hashed_name) = Label::from_raw_bytes(base32_hashed_name) else {
             return nsec3_yield(Proof::Bogus, query, "base32-hashed name is invalid");
         };
